@@ -6,7 +6,7 @@ ST = "verif-stubs/async_backend.py"
 
 def register(R):
     R.module(ST)
-    R.shape("FutureModel", cls="Future", fields={"pending": "bool", "exception_set": "bool"})
+    R.shape("FutureModel", cls="Future", fields={"pending": "bool", "exception_set": "bool", "result_set": "bool", "owner": "none"})
     R.shape("FutureDequeModel", cls="FutureDeque", fields={"n": "int", "pending": "int", "rest": "int"})
     R.shape("EventLoopModel", cls="EventLoop", fields={})
     R.external("traceback.clear_frames", "stubs.stdlib.noop")
